@@ -72,7 +72,8 @@ theorem C04_corner_guard_wiring :
     ∧ C.kernels.all (fun k =>
         let others := (List.range k.d).filter (· ≠ k.ax)
         k.zeroGuardAxes == others && k.oneGuardAxes == others && k.nGuard0 == k.d - 1 && k.nGuard1 == k.d - 1
-          && k.stridesOk) = true := by
+          && k.stridesOk) = true
+    ∧ C.dfactorShapeOk = true ∧ C.dxShapeOk = true ∧ C.xIntShapeOk = true ∧ C.abcShapeOk = true := by
   decide
 
 /-- a frozen axis is not integrated at all -/
